@@ -1,7 +1,8 @@
 """C16 — Plugin references order, match and resolve by semantic version.
 
-Lean: Model/Plugin.lean, Proofs/Plugin.lean, Props/C16.lean, Gen/PluginRef.lean (translated
-from /repo on every run) + Bridge/PluginRef.lean.
+Lean: Model/Plugin.lean, Proofs/Plugin.lean, Props/C16.lean, Gen/PluginRef.lean, Gen/Metaclass.lean,
+Gen/PluginGroupFns.lean (translated from /repo on every run by harness/translate.py and
+harness/translate_c16.py) + Bridge/PluginRef.lean, Bridge/Metaclass.lean, Bridge/PluginGroupFns*.lean.
 Correspondence: real `PluginRef` comparisons / `PluginGroup` version tables / entry point
 name conversion vs. the model driver `drv_plg`.
 Oracle (real code only): order axioms, hash consistency, supports, sortedness, resolve = max.
@@ -21,7 +22,9 @@ ID = "C16"
 MOD = "harness.props.c16"
 T = "MetadorModel.C16."
 LEAN = dict(
-    modules=["MetadorModel.Props.C16", "MetadorModel.Bridge.PluginRef", "MetadorModel.Bridge.Metaclass"],
+    modules=["MetadorModel.Props.C16", "MetadorModel.Bridge.PluginRef", "MetadorModel.Bridge.Metaclass",
+             "MetadorModel.Bridge.PluginGroupFnsDict", "MetadorModel.Bridge.PluginGroupFnsCmp", "MetadorModel.Bridge.PluginGroupFnsRe", "MetadorModel.Bridge.PluginGroupFnsEp",
+             "MetadorModel.Bridge.PluginGroupFns", "MetadorModel.Bridge.PluginGroupFnsReg"],
     theorems=[T + n for n in [
         "eq_iff_same", "hash_consistent", "operators_are_lex", "le_refl", "le_antisymm", "le_trans",
         "le_total", "lt_irrefl", "lt_iff_le_not_eq", "gt_iff_lt_swap", "ge_iff_le_swap", "trichotomy",
@@ -29,17 +32,47 @@ LEAN = dict(
         "resolve_none_iff", "resolve_latest", "keys_lists_registered", "keys_of_name", "contains_iff", "get_is_resolve", "epname_roundtrip", "qualname_has_no_separator",
         "legacy_lt_not_irreflexive", "marked_base_refused"]]
     + ["MetadorModel.Bridge.PluginRef." + n for n in ["gen_eq", "gen_ge", "gen_supports", "gen_hashKey", "gen_cmp_ops"]]
-    + ["MetadorModel.Bridge.Metaclass.gen_newRaises"],
+    + ["MetadorModel.Bridge.Metaclass.gen_newRaises"]
+    # translated by harness/translate_c16.py (Gen/PluginGroupFns.lean); one bridge module per group of functions
+    + ["MetadorModel.Bridge.PluginGroupFns." + n for n in [
+        "Re.test_iff", "pySplit_dot", "pySplit_uu", "pyStrNat_eq", "pyInt_eq",
+        "gen_SEMVER_STR_REGEX", "gen_NAME", "gen_QUAL_NAME", "gen_EP_NAME_REGEX",
+        "gen_to_semver_str", "gen_from_semver_str", "gen_to_ep_name", "gen_from_ep_name", "gen_from_ep_name_model",
+        "gen_ep_name_has_namespace",
+        "gen_versions", "gen_resolve", "gen_contains", "gen_keys", "gen_get_unsafe", "gen_get", "gen_getitem",
+        "gen_add_ep", "gen_manual_register", "gen_register_in_group", "gen_registration_is_register"]],
     drivers=["drv_plg"],
 )
 
 
 def translate(ctx):
+    """regenerate Gen/PluginRef.lean, Gen/Metaclass.lean (harness/translate.py) and Gen/PluginGroupFns.lean
+    (harness/translate_c16.py: entry point name functions + patterns, PluginGroup version table methods,
+    register_in_group) from the current source; every part is attempted, the first failure is reported"""
     import os
-    text = tr.gen_pluginref()
-    changed = lean.write_if_changed(os.path.join(lean.LEAN, "MetadorModel", "Gen", "PluginRef.lean"), text)
-    changed2 = lean.write_if_changed(os.path.join(lean.LEAN, "MetadorModel", "Gen", "Metaclass.lean"), tr.gen_metaclass())
-    return "Gen/PluginRef.lean %s, Gen/Metaclass.lean %s" % ("rewritten" if changed else "unchanged", "rewritten" if changed2 else "unchanged")
+    from .. import translate_c16
+    info, errors = [], []
+    try:
+        text = tr.gen_pluginref()
+        changed = lean.write_if_changed(os.path.join(lean.LEAN, "MetadorModel", "Gen", "PluginRef.lean"), text)
+        changed2 = lean.write_if_changed(os.path.join(lean.LEAN, "MetadorModel", "Gen", "Metaclass.lean"), tr.gen_metaclass())
+        info.append("Gen/PluginRef.lean %s, Gen/Metaclass.lean %s" % ("rewritten" if changed else "unchanged", "rewritten" if changed2 else "unchanged"))
+    except Exception as e:  # noqa: BLE001
+        errors.append(e)
+    try:
+        # a function that cannot be translated is left out of the generated file (the others stay), then
+        # TranslateError is raised: only the bridge modules about that function fail to build
+        info.append(translate_c16.write(lean))
+    except translate_c16.TranslateError as e:
+        errors.append(e)
+    except Exception as e:  # noqa: BLE001
+        translate_c16.write_stub(lean, "%s: %s" % (type(e).__name__, e))   # leave no text of an earlier run behind
+        errors.append(e)
+    if len(errors) == 1:
+        raise errors[0]
+    if errors:
+        raise tr.TranslateError("; ".join("%s: %s" % (type(e).__name__, e) for e in errors))
+    return ", ".join(info)
 
 
 def hx(s):
@@ -664,6 +697,8 @@ def run(ctx):
                 "and mutated names; (marked) subclassing version-less plugin handles. Non-trivial = tagged: >2 versions registered for the queried name, "
                 "resolve/get with/without supporting version, queries between registrations, derived references, valid/invalid entry point names, marked-class check.")
     ctx.trusted.append("harness/translate.py (Python ast -> Lean) for PluginRef.__eq__/__ge__/supports/__hash__; bridge theorems re-checked on every run")
+    ctx.trusted.append("harness/translate_c16.py + Py/PluginPy.lean (value dictionary) for to/from_ep_name, to/from_semver_str, the name/semver patterns "
+                       "(parsed by Python's re._parser), PluginGroup._add_ep/versions/resolve/get/[]/in/keys, register_in_group; bridge theorems re-checked on every run")
     ctx.assumptions += ["Python str comparison = lexicographic by code point = Lean String order (ASCII names used)",
                         "functools.total_ordering derives <,<=,> from __ge__ as in CPython's functools.py (modelled in Plugin.ltFrom/leFrom/gtFrom; compared on every pair)",
                         "list.sort() is a stable sort using only < (modelled as stable insertion sort)"]
